@@ -75,20 +75,22 @@ class C02(Prop):
     CASE_TIMEOUT = 120
     LEVEL = "proof"
     LEVEL_TEXT = ("PARTIAL. Proved in Coq (closed under the global context) over a hand-written model of the combinators: "
-                  "the dot product on one tag emits, for any number of ports and every arrival order, nothing before the "
-                  "last arrival and then exactly one combination holding every port's token, and any two arrival orders "
-                  "give the same combination; three _refuted theorems exhibit the input classes in which the faithful "
-                  "model breaks the property text (a tag and its ancestor on one port of a dot product; a cartesian "
-                  "combinator with an inner combinator; a cartesian combinator over tokens of different depth). The "
-                  "general statements (several tags, broadcast of parent tags, cartesian cross product and composite "
-                  "tags, nesting) are NOT proved: they are decided case by case by an oracle written from the property "
-                  "text on the real code (combine() and CombinatorStep.run) under all / many arrival permutations, and the "
-                  "model (dict order, pop from the right, tag re-binding, exceptions included) is compared with the real "
-                  "code on every such run.")
-    LEVEL_NOTE = ("Only the one-tag dot product is a universally quantified theorem; everything else about C02 rests on "
-                  "differential testing against the model plus the text oracle. Trusted: Coq kernel + vm_compute; the "
-                  "hand-written model Comb/Model.v; CPython dict/deque/itertools. Loop combinators are not covered here. "
-                  "No axioms.")
+                  "for a dot product over any number of ports fed any arrival list in which no two distinct tags are in "
+                  "the ancestor relation and every port carries each tag at most once, the run emits, for EVERY arrival "
+                  "order, exactly one combination per tag present on every port -- at the arrival of the last token of "
+                  "that tag, made of exactly the tokens of that tag -- nothing else, and raises nothing "
+                  "(C02_dot_flat_partial; one-tag special case with an explicit order-independence corollary). Three "
+                  "_refuted theorems exhibit the input classes in which the faithful model breaks the property text (a "
+                  "tag and its ancestor on one port of a dot product; a cartesian combinator with an inner combinator; a "
+                  "cartesian combinator over tokens of different depth). NOT proved: broadcast of parent tags to deeper "
+                  "tags, the cartesian cross product and its composite tags, nesting; these are decided case by case by "
+                  "an oracle written from the property text on the real code (combine() and CombinatorStep.run) under "
+                  "all / many arrival permutations, and the model (dict order, pop from the right, tag re-binding, "
+                  "exceptions included) is compared with the real code on every such run.")
+    LEVEL_NOTE = ("Universally quantified theorems cover only the dot product without parent/child tags; broadcast, "
+                  "cartesian and nested combinators rest on differential testing against the model plus the text oracle. "
+                  "Trusted: Coq kernel + vm_compute; the hand-written model Comb/Model.v; CPython dict/deque/"
+                  "itertools. Loop combinators are not covered here. No axioms.")
     TECHNIQUE = ("Coq proof (closed-form state invariant over arrival lists) for the one-tag dot product + vm_compute "
                  "correspondence of an executable model against the real combinators + text oracle")
     RULE = ("combinator trees of depth <= 2 (dot / cartesian depth 1..2, outer over ports and flat inner combinators), "
